@@ -309,9 +309,9 @@ pub fn gen_value(rng: &mut Rng, class: SizeClass) -> String {
             SizeClass::Tiny => rng.urange(0, 8),
             SizeClass::Small => rng.urange(0, 80),
             SizeClass::Medium => *rng.pick(&[100usize, 1000, 4000, 4090, 4096, 4100, 5000]),
-            SizeClass::Large | SizeClass::Huge => {
-                *rng.pick(&[4096usize, 8191, 8192, 8200, 16384, 20000, 33000])
-            }
+            SizeClass::Large => *rng.pick(&[4096usize, 8191, 8192, 8200, 16384, 20000, 33000]),
+            // lines of hundreds of KiB: only fed in coarse segments (see `coarse_only`)
+            SizeClass::Huge => *rng.pick(&[33000usize, 131073, 200_000, 300_000]),
         };
         gen_text(rng, n)
     }
@@ -337,7 +337,9 @@ pub fn gen_payload(rng: &mut Rng, class: SizeClass) -> Vec<u8> {
             SizeClass::Small => rng.urange(0, 200),
             SizeClass::Medium => *rng.pick(&[1000usize, 4000, 4095, 4096, 4097, 6000]),
             SizeClass::Large => *rng.pick(&[8192usize, 8191, 12000, 16384, 16385, 40000]),
-            SizeClass::Huge => *rng.pick(&[65535usize, 65536, 65537, 131073, 262144, 700_000]),
+            SizeClass::Huge => *rng.pick(&[
+                65535usize, 65536, 65537, 131073, 262144, 700_000, 1_048_577, 1_100_000, 2_200_000,
+            ]),
         };
         rng.bytes(n)
     }
@@ -480,6 +482,13 @@ pub fn gen_version(rng: &mut Rng) -> Vec<u8> {
             gen_text(rng, n).into_bytes()
         }
     }
+}
+
+/// A version far beyond any size someone might cap a line at (only for the greeting check, which
+/// feeds it in coarse segments: `connect` re-parses the whole line on every read).
+pub fn gen_version_giant(rng: &mut Rng) -> Vec<u8> {
+    let n = *rng.pick(&[70_000usize, 1_048_570, 1_100_000]);
+    gen_text(rng, n).into_bytes()
 }
 
 pub fn valid_greeting(version: &[u8]) -> Vec<u8> {
@@ -818,6 +827,12 @@ pub fn gen_seg(rng: &mut Rng, body: &[u8]) -> (Seg, &'static str) {
         }
         _ => (vec![2], "pairs"),
     }
+}
+
+/// For streams with very long text lines: a line is re-scanned on every read, so fine-grained
+/// policies would make a single case quadratic. Keep the policies whose reads are few.
+pub fn coarse_only(name: &str) -> bool {
+    matches!(name, "whole" | "lines" | "before_lf" | "random" | "split2" | "around_boundaries")
 }
 
 pub fn gen_pending(rng: &mut Rng) -> Vec<u8> {
